@@ -20,6 +20,8 @@ func represent(t *rapid.T, p ref.Pt, label string) (*secp256k1.Point, string) {
 	return lib.Pt(p), "affine"
 }
 
+func sibling(ref.Pt, bool) (*secp256k1.Point, ref.Pt, bool) { return nil, ref.Pt{}, false }
+
 func hookEntry(string, *secp256k1.Point, *secp256k1.Scalar, *secp256k1.Point) *secp256k1.Point {
 	panic("no hooks")
 }
